@@ -5,7 +5,7 @@ import json, os, shutil, subprocess, sys
 
 VERIF = os.path.dirname(os.path.dirname(os.path.abspath(__file__)))
 SRC = '/tmp/seedout'
-SOURCES = [('/tmp/seedout', ''), ('/tmp/seedout2', 'r2'), ('/tmp/seedout3', 'r3'), ('/tmp/seedout4', 'r4')]
+SOURCES = [('/tmp/seedout', ''), ('/tmp/seedout2', 'r2'), ('/tmp/seedout3', 'r3'), ('/tmp/seedout4', 'r4'), ('/tmp/seedout5', 'r5')]
 NEEDS = {
  'C01-m1': 'one-token sentence whose only/best route to a root category needs a unary rule',
  'C01-m2': 'lp rule made head-right: span with two derivations of one category and different heads (runs of punctuation)',
@@ -330,6 +330,88 @@ HISTORY.update({
  'C19-r4m2': 'missed at first: empty result lists are violations everywhere; placeholder also taken from an exhausted step budget',
 })
 EXTRA.update({'C02-r4m1': ['C11'], 'C07-r4m3': ['C18'], 'C10-r4m3': ['C01']})
+NEEDS.update({
+ 'C01-r5m1': 'unary_penalty passed as exactly 0 (resolved with "or 0.1")',
+ 'C01-r5m2': 'best/only derivation needs a unary rule over a constituent of two or more tokens',
+ 'C01-r5m3': 'pool path: sentences dealt round-robin but gathered chunk after chunk',
+ 'C02-r5m1': 'best tag of a token underflows exp (or beta >= 1): top-ranked tag always pushed',
+ 'C02-r5m2': 'pool path with imap_unordered and a later chunk finishing first',
+ 'C02-r5m3': 'nbest > pruning_size (beam widened to nbest inside the search)',
+ 'C03-r5m1': 'a pair binding [X] through a rule, later a pair through the same rule whose [X] is not re-bound (matcher reused)',
+ 'C03-r5m2': 'a functor taking a punctuation atom as its argument (N/, + ,)',
+ 'C03-r5m3': 'left input (B/C)\\D with right input A\\B: gbx skipped by an outer-slash pre-filter',
+ 'C04-r5m1': 'mod=adv unary input with three or more arguments (label ADV3)',
+ 'C04-r5m2': '>Bx3 with a non-modifier primary and D != E (arguments swapped)',
+ 'C04-r5m3': 'a pair binding a variable triple through a rule, later a pair that merely carries that triple (matcher reused)',
+ 'C05-r5m1': 'two unbracketed slashes at one level where a later operand is bracketed: S/(NP)/NP',
+ 'C05-r5m2': 'round and angle brackets nested inside each other',
+ 'C05-r5m3': 'angle pair directly enclosing an unreduced x slash y',
+ 'C06-r5m1': 'shared variable bound to a functor: first leaf compatible, a later leaf clashing',
+ 'C06-r5m2': 'first input fits, second fails in the shape phase, then a binding is read',
+ 'C06-r5m3': 'first input has no feature (or nb) where the second has X: bindings get [X] on feature-less atoms',
+ 'C07-r5m1': 'deriv with an East Asian wide-character token wider than its category (columns mis-aligned)',
+ 'C07-r5m2': 'English prolog with a category carrying [X] (lower-cased into a concrete feature)',
+ 'C07-r5m3': 'batch whose sentences have different n-best counts (line formats mis-numbered)',
+ 'C08-r5m1': 'leaf whose POS tag is literally POS',
+ 'C08-r5m2': 'word or tag containing ID=',
+ 'C08-r5m3': 'token that is exactly < or >',
+ 'C09-r5m1': 'right-headed binary node whose left child enters the chart after its right child',
+ 'C09-r5m2': 'negative unary penalty (clamped at 0)',
+ 'C09-r5m3': 'second parse in the same process with a different unary penalty (static const)',
+ 'C10-r5m1': 'k = 1 and a (span, category) with two derivations where the worse one is generated first (dedup at push)',
+ 'C10-r5m2': 'filter off and a k-best derivation needing a tag with log score below about -87',
+ 'C10-r5m3': 'acyclic unary chain of three rules needed by one of the k best',
+ 'C11-r5m1': 'pool path with > 20 sentences whose length-sort permutation has a cycle of length >= 3',
+ 'C11-r5m2': 'empty sentence with mis-shaped score matrices',
+ 'C11-r5m3': 'pool path with two or more over-long sentences and an ordinary one after the first',
+ 'C12-r5m1': 'pair with >= 2 results, left child accepted after the right child (rule index of the wrong item)',
+ 'C12-r5m2': 'any node made by the English left-punctuation rule (head forced right)',
+ 'C12-r5m3': 'right-headed tree crossing a pickle boundary (__reduce__ drops head_is_left)',
+ 'C13-r5m1': 'two triples with the same pairs in a different order',
+ 'C13-r5m2': 'category with [nb] and a set of erased names that does not include nb',
+ 'C13-r5m3': 'atom with a punctuation base carrying a feature compared with the bare symbol',
+ 'C14-r5m1': 'NP/PP unary key whose targets list a type-raising target before another one (order lost)',
+ 'C14-r5m2': 'caller mutates the returned list, then applies an equal pair again (cached list returned)',
+ 'C14-r5m3': 'seen-rule set given, both categories punctuation atoms, pair not in the set',
+ 'C15-r5m1': 'token starting with an underscore and containing logic punctuation',
+ 'C15-r5m2': 'token attribute containing |',
+ 'C15-r5m3': 'derivation that is a single leaf read by read_xml',
+ 'C16-r5m1': 'a call with a small beta followed in the same process by a call with a larger beta (static log_beta)',
+ 'C16-r5m2': 'one-word sentence whose best root-capable tag lies outside the beam (fast path)',
+ 'C16-r5m3': 'pruning_size exactly 1 (treated as a fraction)',
+ 'C17-r5m1': 'dictionary entry whose category list is empty (row left untouched)',
+ 'C17-r5m2': 'inventory of more than 256 categories (uint8 indices wrap)',
+ 'C17-r5m3': 'two different dictionaries sharing a word applied one after the other with the same inventory',
+ 'C18-r5m1': 'json first: tokens gain a cat key',
+ 'C18-r5m2': 'prolog rendered a second time in the same process (header only once)',
+ 'C18-r5m3': 'Japanese session, jigg_xml first (op_string overwritten by the symbol)',
+ 'C19-r5m1': 'English prolog with a type-raising step',
+ 'C19-r5m2': 'html with a token containing { or }',
+ 'C19-r5m3': 'a long sentence (about 170 words) with a chain-like derivation (deepcopy recursion)',
+ 'C20-r5m1': 'a ( or ) token tagged with a category other than LRB/RRB',
+ 'C20-r5m2': 'annotated bank line with two-digit dependency variables',
+ 'C20-r5m3': 'token containing # in a .ptb file (comment stripping)',
+})
+HISTORY.update({
+ 'C01-r5m3': 'a pool-path defect: caught by C11, not by C01',
+ 'C02-r5m1': 'NOT caught, by design: the best tag of a word is never below beta x best; when exp() underflows the must/may sets leave open whether it is admitted',
+ 'C02-r5m2': 'a pool-path defect: caught by C11, not by C02',
+ 'C02-r5m3': 'missed at first by C02 (caught by C16): beam cases with n-best added to C02',
+ 'C04-r5m1': 'missed at first: labels for shapes the statement does not single out must still be among the labels it names',
+ 'C08-r5m1': 'missed at first: POS value POS added',
+ 'C08-r5m2': 'missed at first: tokens containing ID= added',
+ 'C09-r5m2': 'missed at first: negative unary penalties added to C09',
+ 'C10-r5m2': 'missed at first: extreme rows added to C10',
+ 'C11-r5m2': 'missed at first: shape mode "empty sentence with mis-shaped matrices" added',
+ 'C12-r5m3': 'missed at first by C12 (caught by C11): returned trees are pickled and compared in C12',
+ 'C13-r5m3': 'missed at first: punctuation bases carrying a feature, compared with the bare symbol, added',
+ 'C14-r5m1': 'missed at first: NP/PP unary tables mixing type-raising and other targets added',
+ 'C14-r5m2': 'missed at first: the returned list is modified by the harness before the second call',
+ 'C19-r5m2': 'missed at first by C19 (caught by C07): English tokens of C19 now range over the English formats\' domain (braces allowed)',
+ 'C19-r5m3': 'missed at first: 170-word chain derivations rendered under the default recursion limit',
+ 'C20-r5m2': 'missed at first: two-digit dependency variables in the injected annotations',
+})
+EXTRA.update({'C01-r5m3': ['C11'], 'C02-r5m2': ['C11'], 'C02-r5m3': ['C16'], 'C12-r5m3': ['C11'], 'C19-r5m2': ['C07']})
 
 
 def main(only=None):
